@@ -64,7 +64,7 @@ type c13Run struct {
 	idx  int64
 	ops  []aop
 	viol bool
-	nForged, nCorrective, nReplies, nRejects, nCycles, nRelayed, nAltStarts int
+	nForged, nCorrective, nReplies, nRejects, nCycles, nRelayed, nAltStarts, nUnicastReq int
 }
 
 func (r *c13Run) history() {
@@ -151,7 +151,18 @@ func (r *c13Run) history() {
 			case "req-router":
 				_, on := hunted[string(tgt.MAC)]
 				ev.extra = fmt.Sprint(on)
-				feed(arpFrom(tgt, 1, tgt.IP, nic.RouterIP, refdec.MAC{}))
+				// the request goes to the broadcast address, or - when the asker revalidates a neighbour cache entry - straight to
+				// the station it believes to be the router: this host (after a successful spoof) or the real router
+				f := arpFrom(tgt, 1, tgt.IP, nic.RouterIP, refdec.MAC{})
+				switch o.P % 3 {
+				case 1:
+					copy(f[0:6], nic.HostMAC)
+					r.nUnicastReq++
+				case 2:
+					copy(f[0:6], nic.RouterMAC)
+					r.nUnicastReq++
+				}
+				feed(f)
 			case "req-router-relayed":
 				// a request for the router relayed by a bridge/repeater: Ethernet source and ARP sender hardware address differ.
 				// Whatever the handler does with it, forged packets may only ever be addressed to hunted hosts (rule R1)
@@ -484,6 +495,7 @@ func runC13(c *wk.Ctx) {
 		run := &c13Run{c: c, idx: idx, ops: ops}
 		runBubble(c, idx, func() { run.history() })
 		c.Obs("relayed_requests_mixed_hunt_state", int64(run.nRelayed))
+		c.Obs("router_requests_sent_unicast", int64(run.nUnicastReq))
 		c.Obs("starthunt_with_another_ip", int64(run.nAltStarts))
 		if !run.viol && run.nForged > 0 && run.nCorrective > 0 {
 			c.Class(fmt.Sprintf("forged~%d corrective~%d replies=%v rejects=%v", min(run.nForged/4, 6), min(run.nCorrective, 3), run.nReplies > 0, run.nRejects > 0))
